@@ -28,6 +28,7 @@ type ExpandTask struct {
 	Alphabet []pagedrv.Op `json:"alphabet"`
 	Key      string       `json:"key"`   // expected key at the end of Path ("" for the root)
 	Flags    []string     `json:"flags"` // per-check behaviour switches understood by the child
+	Judge    bool         `json:"judge,omitempty"` // also report what the oracles say about Path itself (root of a seeded search)
 }
 
 // Succ is one explored transition.
@@ -49,6 +50,8 @@ type ExpandResult struct {
 	Key         string `json:"key"`
 	Log         string `json:"log,omitempty"`
 	Succ        []Succ `json:"succ"`
+	// PathViol: violations raised while replaying Path (only with Judge)
+	PathViol []pagedrv.Violation `json:"path_viol,omitempty"`
 }
 
 // Run executes fn as the main thread under the scheduler (instrumented build)
@@ -138,9 +141,16 @@ func HandleExpand(raw []byte) interface{} {
 	}
 	var res ExpandResult
 	var enabled []pagedrv.Op
-	_, sv, err := replay(cfg, t.Path, nil, t.Flags, func(e *pagedrv.Env) {
+	env0, sv, err := replay(cfg, t.Path, nil, t.Flags, func(e *pagedrv.Env) {
 		if e.Dead {
 			return
+		}
+		if t.Judge && len(t.Path) > 0 {
+			for _, f := range t.Flags {
+				if h := Hooks[f]; h != nil {
+					h(e, t.Path[len(t.Path)-1])
+				}
+			}
 		}
 		res.Key = e.Key()
 		if e.T == nil && e.F != nil {
@@ -154,6 +164,12 @@ func HandleExpand(raw []byte) interface{} {
 	})
 	if err != nil {
 		return ExpandResult{EngineError: "cannot create file: " + err.Error()}
+	}
+	if t.Judge && env0 != nil {
+		res.PathViol = append(append(res.PathViol, env0.Viol...), sv...)
+		if len(res.PathViol) > 0 {
+			return res
+		}
 	}
 	if len(sv) > 0 {
 		return ExpandResult{EngineError: "replay of an already explored path failed at scheduler level: " + sv[0].Msg}
@@ -249,6 +265,9 @@ func (n *Node) Path() []pagedrv.Op {
 // Spec describes one search.
 type Spec struct {
 	Seed      []pagedrv.Op // history executed before the search starts (non-initial start state); must end without an open transaction
+	// Seeds: several start states searched together (one frontier, shared
+	// duplicate detection); used instead of Seed.
+	Seeds [][]pagedrv.Op
 	Cfg       pagedrv.Cfg
 	Alphabet  []pagedrv.Op
 	MaxDepth  int
@@ -270,12 +289,27 @@ type Stats struct {
 // BFS runs the search. Violations are reported through ctx.
 func BFS(ctx *core.Ctx, pool *par.Pool, spec Spec) Stats {
 	var st Stats
-	root := &Node{}
-	for _, op := range spec.Seed { // the seed is part of every path (replay documents stay self-contained)
-		root = &Node{Parent: root, Op: op}
+	mkRoot := func(seed []pagedrv.Op) *Node {
+		root := &Node{}
+		for _, op := range seed { // the seed is part of every path (replay documents stay self-contained)
+			root = &Node{Parent: root, Op: op}
+		}
+		return root
 	}
 	seen := map[string]*Node{}
-	frontier := []*Node{root}
+	roots := map[*Node]bool{}
+	var frontier []*Node
+	if len(spec.Seeds) > 0 {
+		for _, sd := range spec.Seeds {
+			r := mkRoot(sd)
+			roots[r] = true
+			frontier = append(frontier, r)
+		}
+	} else {
+		r := mkRoot(spec.Seed)
+		roots[r] = true
+		frontier = []*Node{r}
+	}
 	first := true
 	for depth := 0; len(frontier) > 0; depth++ {
 		if spec.MaxDepth > 0 && depth >= spec.MaxDepth {
@@ -288,7 +322,8 @@ func BFS(ctx *core.Ctx, pool *par.Pool, spec Spec) Stats {
 		}
 		tasks := make([][]byte, len(frontier))
 		for i, n := range frontier {
-			t := ExpandTask{Type: "expand", Cfg: spec.Cfg.Name, Path: n.Path(), Alphabet: spec.Alphabet, Key: n.Key, Flags: spec.Flags}
+			t := ExpandTask{Type: "expand", Cfg: spec.Cfg.Name, Path: n.Path(), Alphabet: spec.Alphabet, Key: n.Key, Flags: spec.Flags,
+				Judge: first && roots[n] && n.Parent != nil}
 			tasks[i], _ = json.Marshal(t)
 		}
 		var next []*Node
@@ -308,13 +343,19 @@ func BFS(ctx *core.Ctx, pool *par.Pool, spec Spec) Stats {
 				ctx.EngineError("%s", r.EngineError)
 				return
 			}
-			if first && from == root {
-				root.Key = r.Key
-				root.Quiet = true
-				root.Log = LogKey(r.Log)
-				root.NoStats = noStats(r.Log)
-				seen[r.Key] = root
-				st.States++
+			for _, v := range r.PathViol {
+				ctx.Violate(v.Class, fmt.Sprintf("cfg %s after [%s] (seed history of this search): %s", spec.Cfg.Name, pagedrv.PathString(from.Path()), v.Msg),
+					map[string]interface{}{"kind": "path", "cfg": spec.Cfg.Name, "path": from.Path(), "flags": spec.Flags})
+			}
+			if first && roots[from] {
+				from.Key = r.Key
+				from.Quiet = true
+				from.Log = LogKey(r.Log)
+				from.NoStats = noStats(r.Log)
+				if _, dup := seen[r.Key]; !dup {
+					seen[r.Key] = from
+					st.States++
+				}
 			}
 			for k := range r.Succ {
 				s := &r.Succ[k]
